@@ -15,7 +15,7 @@ Rust function            | Lean definition
 `fft_internal::<0>(0,n)` | `fftInternal` (`fftCore` = `bitrev`, `stages`/`stage`/`innerLoop`, scaling)
 `fft`, `fft_into`        | `fft?`, `fftInto?` / `fftIntoCore`
 `fft_inv`, `fft_inv_into`| `fftInv?`, `fftInvInto?` / `fftInvIntoCore`
-`multiply`, `multiply_into` | `multiply`, `multiplyInto`
+`multiply`, `multiply_into` | `multiply`, `multiplyInto` = `mulBlocks (multiplyDirect A)` (block recursion for unbalanced operands: `mulBlocks`, `blockLoop`; single transform: `multiplyDirect`)
 
 State that survives a call: `w`, `reversed`, `bufs[0]` (`bufs[1]` is never touched by any method).
 `&mut self` methods return the new state.  Loops are `forRange` (a `for i in lo..hi`) or
@@ -261,19 +261,69 @@ def unpack (A : Arith K) (n : Nat) (buf : Array K) : Array K :=
     let v := A.mul (A.mul (A.add bi cj) (A.sub cj bi)) A.i8
     (b.setIfInBounds i v).setIfInBounds j (A.conj v)) buf
 
+/-- The single-transform part of `multiply_into` (everything after the block split; both operands non-empty):
+    `a + i·b` packed into one transform of size `n`, unpacked, folded, inverse transform of size `n/2`,
+    `res.iter_mut().zip(…).take(a.len() + b.len() - 1).for_each(|(x, y)| *x += y)`. -/
+def multiplyDirect (A : Arith K) (s : State K) (a b : Array Int) (res : List Int) : State K × List Int :=
+  let len := a.size + b.size - 1
+  let n := ceilPow2 2 len
+  let buf := fillIm A b (fillRe A a (Array.replicate n A.zero))
+  let s := fftInternal A { s with buf := buf } n false
+  let buf := unpack A n s.buf
+  let buf := foldHalf A id s.w s.rev.size n buf
+  let buf := buf.extract 0 (n >>> 1)
+  let s := fftInternal A { s with buf := buf } (n >>> 1) true
+  (s, addPrefix res ((roundPairs A s.buf).take len))
+
+/-- The block loop of `multiply_into` for unbalanced operands:
+    ```
+    for (k, block) in long.chunks(short.len()).enumerate() {
+        let offset = k * short.len();
+        if offset >= res.len() { break; }
+        self.multiply_into(short, block, &mut res[offset..]);
+    }
+    ```
+    `rec blk _ s r` is the recursive call `self.multiply_into(short, blk, r)`.  The destination is carried as
+    `done ++ rest` with `rest = res[offset..]` (so `offset >= res.len()` is `rest = []`) and `done = res[..offset]`,
+    which no later block touches; the `k`-th chunk is `long[offset .. min(offset + short.len(), long.len())]` and exists
+    iff `offset < long.len()`.  `σ` is the object (`&mut self`). -/
+def blockLoop {σ : Type} (short long : Array Int)
+    (rec : (blk : Array Int) → blk.size ≤ short.size → σ → List Int → σ × List Int)
+    (k : Nat) (s : σ) (done : Array Int) (rest : List Int) : σ × List Int :=
+  let off := k * short.size
+  if _h : off < long.size ∧ 0 < short.size then
+    if rest.isEmpty then (s, done.toList ++ rest)                       -- break
+    else
+      let blk := long.extract off (off + short.size)
+      let r := rec blk (by simp only [blk, Array.size_extract]; omega) s rest
+      blockLoop short long rec (k + 1) r.1 (done ++ r.2.take short.size) (r.2.drop short.size)
+  else (s, done.toList ++ rest)
+termination_by long.size - k * short.size
+decreasing_by rw [Nat.add_mul]; omega
+
+/-- The control structure of `multiply_into`: the emptiness check, the ordering of the operands by length
+    (`a.len() <= b.len()` keeps `(a, b)`), the block split when `long.len() > 2 * short.len()` (each block by a
+    recursive call with the operands `(short, block)`, in this order) and otherwise the single-transform code
+    `direct` with the operands in the caller's order.  Generic in the object type `σ` and in `direct` so that the
+    same recursion can be run without an object (`Lemmas/Fft.lean`: `multiplyIntoRef`).
+    Terminates because `short.len() + block.len() <= 2 * short.len() < long.len()`. -/
+def mulBlocks {σ : Type} (direct : σ → Array Int → Array Int → List Int → σ × List Int)
+    (s : σ) (a b : Array Int) (res : List Int) : σ × List Int :=
+  if a.size = 0 ∨ b.size = 0 then (s, res)
+  else if _hab : a.size ≤ b.size then
+    if _h : b.size > 2 * a.size then
+      blockLoop a b (fun blk _ s' r' => mulBlocks direct s' a blk r') 0 s #[] res
+    else direct s a b res
+  else
+    if _h : a.size > 2 * b.size then
+      blockLoop b a (fun blk _ s' r' => mulBlocks direct s' b blk r') 0 s #[] res
+    else direct s a b res
+termination_by a.size + b.size
+decreasing_by all_goals omega
+
 /-- `pub fn multiply_into`. -/
 def multiplyInto (A : Arith K) (s : State K) (a b : Array Int) (res : List Int) : State K × List Int :=
-  if a.size = 0 ∨ b.size = 0 then (s, res)
-  else
-    let len := a.size + b.size - 1
-    let n := ceilPow2 2 len
-    let buf := fillIm A b (fillRe A a (Array.replicate n A.zero))
-    let s := fftInternal A { s with buf := buf } n false
-    let buf := unpack A n s.buf
-    let buf := foldHalf A id s.w s.rev.size n buf
-    let buf := buf.extract 0 (n >>> 1)
-    let s := fftInternal A { s with buf := buf } (n >>> 1) true
-    (s, addPrefix res ((roundPairs A s.buf).take len))
+  mulBlocks (multiplyDirect A) s a b res
 
 /-- `pub fn multiply`. -/
 def multiply (A : Arith K) (s : State K) (a b : Array Int) : State K × List Int :=
